@@ -20,6 +20,7 @@ import (
 
 	"github.com/google/uuid"
 	"github.com/mr-tron/base58"
+	"github.com/nspcc-dev/bbolt"
 	objectcore "github.com/nspcc-dev/neofs-node/pkg/core/object"
 	meta "github.com/nspcc-dev/neofs-node/pkg/local_object_storage/metabase"
 	"github.com/nspcc-dev/neofs-node/pkg/local_object_storage/blobstor/common"
@@ -243,7 +244,8 @@ type corpus struct {
 }
 
 func openDB(dir, name string, es *epochState) *meta.DB {
-	db := meta.New(meta.WithPath(filepath.Join(dir, name)), meta.WithPermissions(0o600), meta.WithEpochState(es))
+	db := meta.New(meta.WithPath(filepath.Join(dir, name)), meta.WithPermissions(0o600), meta.WithEpochState(es),
+		meta.WithBoltDBOptions(&bbolt.Options{NoSync: true, NoFreelistSync: true}))
 	must(db.Open(false))
 	sid, err := common.NewID()
 	must(err)
@@ -410,7 +412,11 @@ func (c *corpus) genQuery() querySpec {
 	if n > 0 && rnd.chance(70) {
 		q.Attrs = []string{prim}
 		for rnd.chance(40) && len(q.Attrs) < 4 {
-			q.Attrs = append(q.Attrs, pick(keys))
+			if rnd.chance(50) {
+				q.Attrs = append(q.Attrs, pick(sysKeys()))
+			} else {
+				q.Attrs = append(q.Attrs, pick(keys))
+			}
 		}
 	}
 	return q
@@ -449,6 +455,17 @@ type runOut struct {
 	Cursors []string     `json:"cursors"` // cursor returned with each page ("" = none)
 	Recalc  []string     `json:"recalc"`  // CalculateCursor(filter0, last item) for each page with a cursor ("!" = error)
 	Loop    bool         `json:"loop"`    // gave up following cursors
+	Panic   bool         `json:"panic"`   // Search panicked (reported as an error observable)
+}
+
+func safeSearch(db *meta.DB, ofs []objectcore.SearchFilter, attrs []string, cur *objectcore.SearchCursor, count uint16) (res []client.SearchResultItem, nc []byte, err error, panicked bool) {
+	defer func() {
+		if r := recover(); r != nil {
+			err, panicked = fmt.Errorf("panic: %v", r), true
+		}
+	}()
+	res, nc, err = db.Search(cnrMain, ofs, attrs, cur, count)
+	return
 }
 
 func items(res []client.SearchResultItem) []itemOut {
@@ -491,7 +508,10 @@ func (c *corpus) run(ci int, q querySpec, count int) runOut {
 			break
 		}
 		out.Pre = "ok"
-		res, nc, err := c.db.Search(cnrMain, ofs, q.Attrs, cur, uint16(count))
+		res, nc, err, panicked := safeSearch(c.db, ofs, q.Attrs, cur, uint16(count))
+		if panicked {
+			out.Panic = true
+		}
 		if err != nil {
 			out.Err = true
 			break
@@ -520,16 +540,22 @@ func (c *corpus) run(ci int, q querySpec, count int) runOut {
 // enc/dec tables of the text forms used for system attributes (libraries outside the repo)
 func tables(c *corpus, qs []querySpec) (enc [][]any, dec [][]any) {
 	seenE, seenD := map[string]bool{}, map[string]bool{}
-	addEnc := func(raw []byte) {
-		if seenE[string(raw)] {
+	addEnc := func(class int, raw []byte) {
+		key := string(rune('0'+class)) + string(raw)
+		if seenE[key] {
 			return
 		}
-		seenE[string(raw)] = true
-		enc = append(enc, []any{0, hx(raw), hx([]byte(base58.Encode(raw)))})
-		enc = append(enc, []any{1, hx(raw), hx([]byte(hex.EncodeToString(raw)))})
-		if len(raw) == 16 {
-			u, _ := uuid.FromBytes(raw)
-			enc = append(enc, []any{2, hx(raw), hx([]byte(u.String()))})
+		seenE[key] = true
+		switch class {
+		case 0:
+			enc = append(enc, []any{0, hx(raw), hx([]byte(base58.Encode(raw)))})
+		case 1:
+			enc = append(enc, []any{1, hx(raw), hx([]byte(hex.EncodeToString(raw)))})
+		case 2:
+			if len(raw) == 16 {
+				u, _ := uuid.FromBytes(raw)
+				enc = append(enc, []any{2, hx(raw), hx([]byte(u.String()))})
+			}
 		}
 	}
 	addDec := func(text string) {
@@ -550,9 +576,12 @@ func tables(c *corpus, qs []querySpec) (enc [][]any, dec [][]any) {
 	for _, s := range c.objs {
 		for _, a := range s.Attrs {
 			switch a.K {
-			case object.FilterOwnerID, object.FilterFirstSplitObject, object.FilterParentID, object.AttributeAssociatedObject,
-				object.FilterPayloadChecksum, object.FilterSplitID:
-				addEnc(a.V)
+			case object.FilterOwnerID, object.FilterFirstSplitObject, object.FilterParentID, object.AttributeAssociatedObject:
+				addEnc(0, a.V)
+			case object.FilterPayloadChecksum:
+				addEnc(1, a.V)
+			case object.FilterSplitID:
+				addEnc(2, a.V)
 			}
 		}
 	}
